@@ -20,7 +20,9 @@ RULE = ("chunks cases = (strategy struct/array/default, format b h i f d B H, by
         "in-range values incl. the extremes cycled to a length 0..3*size+delta, pad value "
         "or default, source kind list/tuple/iterator/generator/Stream/array.array/collections.deque/"
         "user Sequence answering integer indexes only/object with only __getitem__, "
-        "positional/keyword call); oracle = one-shot "
+        "positional/keyword call; float values include inf, -inf and NaNs of both signs; with size "
+        "left out chunks.size is set to 1..300 beforehand in part of the cases; pad left out = the "
+        "integer 0 on every format; one float list in six holds zeros of both signs only); oracle = one-shot "
         "struct.pack(order + str(n) + fmt, *(xs + pads)) compared with the joined chunks, "
         "each chunk size*itemsize bytes, struct.unpack of the join gives the padded "
         "sequence. WAV cases = (width 1..4, channels 1..2, sample list incl. min/max/-1/0, "
@@ -33,16 +35,35 @@ RULE = ("chunks cases = (strategy struct/array/default, format b h i f d B H, by
         "RIFF header of the wanted WAV, consumption route) written with "
         "the stdlib wave module (24-bit frames packed by hand) into a per-case temp dir; "
         "oracle = the written integers (keep) or (v - 128*[bits==8]) / 2**(bits-1) as exact "
-        "floats, header mirror, file closed after exhaustion. non-trivial = at least 2 "
+        "floats, header mirror (before and after reading), file closed after exhaustion; keep is a bool "
+        "or 1/0/2/None; a quarter of the files is laid out by hand instead (fmt chunk of 16/18/40 "
+        "bytes, further chunks before fmt, between fmt and data and after the data, pad byte after odd "
+        "data), self-checked against the stdlib reader. Several objects at once: two chunk generators "
+        "(same format and size in half of the cases) advanced in turns or one run / advanced inside "
+        "the lazy input of the other or re-chunking its decoded output; two or three WavStreams read "
+        "in portions in any order, forgotten, unfinished, over the same file or over a file that "
+        "replaced another under the same name - each object judged against its own oracle. "
+        "non-trivial = at least 2 "
         "chunks / at least 3 frames with a negative sample; distinct = distinct case hash")
 ASSUMPTIONS = [
   "chunk values and pad values lie in the format's range (ints for integer formats, "
-  "float32-representable floats for 'f'); out-of-range values raise in both strategies and "
-  "are outside the property's domain",
-  "the default pad value 0. is only used where it is packable (float formats, or no ragged tail)",
+  "float32-representable floats for 'f', which includes the infinities and quiet NaNs: both float "
+  "formats store them exactly; a NaN counts as given back when a NaN with the same bytes comes "
+  "back); out-of-range values raise in both strategies and are outside the property's domain",
+  "the default pad value is the integer 0 (since the repair of the float default 0., which integer "
+  "formats could not pack): it pads every format, giving zero bytes",
   "byte order None means struct's native mode; for the formats used (b h i f d B H) native "
   "and standard sizes coincide on this platform and array item sizes equal struct sizes",
-  "WAV files are produced by wave.open(..., 'wb') on a little-endian host; only PCM mono/stereo",
+  "WAV files are produced by wave.open(..., 'wb') on a little-endian host, or put together by hand "
+  "following the RIFF/WAVE layout rules (fmt chunk of 16, 18 or 40 bytes with the PCM sub-format, "
+  "further chunks around fmt and data, pad byte after odd chunks) and then accepted only when the "
+  "stdlib reader returns the very same frames; only PCM mono/stereo",
+  "with size left out the chunk size is the value of chunks.size at the time the chunks are made "
+  "(documented as changeable); the check sets it on the strategy dict or its class and restores it",
+  "every chunks generator and every WavStream answers for its own input only: other generators / "
+  "streams of the same process (alive, unfinished, forgotten, running inside this one's lazily "
+  "evaluated input) are part of 'all inputs / configurations'; a file replaced under the same name "
+  "(os.replace) is a new file, a reader opened before keeps the old one",
   "the header's rate field is any unsigned 32-bit value: what the fmt chunk can store and the "
   "stdlib reader reports, not only what wave.setframerate agrees to write; the dependent byte-rate "
   "field holds rate*channels*width modulo 2**32 (the reader does not look at it)",
@@ -64,6 +85,14 @@ EDGE_SIZES = [1, 2, 127, 128, 129, 255, 256, 257, 300]
 
 # ------------------------------------------------------------------ chunks
 
+# the values outside the finite range that both float formats store exactly: the infinities and
+# (quiet) NaNs of either sign, one of them with a payload in the mantissa bits that float32 keeps
+_INF = float("inf")
+_NAN = float("nan")
+_NAN_PAYLOAD = struct.unpack("<d", bytes.fromhex("000000a0e5f1f87f"))[0]
+NONFINITE = [_INF, -_INF, _NAN, -_NAN, _INF, -_INF, _NAN_PAYLOAD, -_NAN_PAYLOAD]
+
+
 def _values(dfmt):
   if dfmt in INT_RANGE:
     lo, hi = INT_RANGE[dfmt]
@@ -72,11 +101,42 @@ def _values(dfmt):
   if dfmt == "f":
     return st.one_of(st.floats(width=32, allow_nan=False, allow_infinity=False),
                      st.sampled_from([0., -0., 1., -1., .5, 3.4028234663852886e+38,
-                                      1.401298464324817e-45]),
+                                      -3.4028234663852886e+38, 1.401298464324817e-45]),
+                     st.sampled_from(NONFINITE),
                      st.integers(-1000, 1000))
   return st.one_of(st.floats(allow_nan=False, allow_infinity=False),
-                   st.sampled_from([0., -0., 1., -1., 1e308, 5e-324, .1]),
+                   st.sampled_from([0., -0., 1., -1., 1e308, 5e-324, .1, 1.7976931348623157e308,
+                                    -1.7976931348623157e308]),
+                   st.sampled_from(NONFINITE),
                    st.integers(-1000, 1000))
+
+
+def _nonfinite(v):
+  return isinstance(v, float) and (v != v or v in (_INF, -_INF))
+
+
+def _same_items(got, exp):
+  """Item-wise equality in which a NaN equals a NaN (bytes are compared separately)."""
+  if len(got) != len(exp):
+    return False
+  for g, e in zip(got, exp):
+    if isinstance(e, float) and e != e:
+      if not (isinstance(g, float) and g != g):
+        return False
+    elif g != e or (isinstance(g, float) and g != g):
+      return False
+  return True
+
+
+def _bases(dfmt):
+  """Short value lists that are cycled to the wanted length.  For the float formats one list in six
+  holds zeros of both signs (and ints 0) only: consecutive chunks then compare equal item by item
+  while their bytes differ."""
+  plain = st.lists(_values(dfmt), min_size=1, max_size=8)
+  if dfmt in INT_RANGE:
+    return plain
+  zeros = st.lists(st.sampled_from([0., -0., 0., -0., 0]), min_size=2, max_size=7)
+  return st.one_of(plain, plain, plain, plain, plain, zeros)
 
 
 def strat_chunks(tier):
@@ -90,13 +150,17 @@ def strat_chunks(tier):
       dfmt=st.just(dfmt),
       order=st.sampled_from([None, "<", ">", None, "<", ">", "=", "!", "@"]),
       size=st.one_of(size, size, size, size, size, size, size, size, size, st.none()),
-      base=st.lists(_values(dfmt), min_size=1, max_size=8),
+      base=_bases(dfmt),
       blocks=st.integers(0, 3),        # number of complete chunks
       extra=st.integers(0, 400),       # ragged tail length, taken modulo size
       pad=st.one_of(st.just("default"), _values(dfmt), _values(dfmt)),
       src=st.sampled_from(["list", "iter", "stream", "gen", "tuple", "array", "array",
                            "deque", "deque", "intseq", "intseq", "getitem"]),
       kw=st.booleans(),
+      # size None only: the default size is what chunks.size holds at the time, and the documentation
+      # invites to change it ("Default chunk size can be accessed (and changed) via chunks.size")
+      defsize=st.one_of(st.none(), st.integers(1, 12), st.integers(1, 300)),
+      defvia=st.sampled_from(["instance", "class"]),
     ))
   return st.sampled_from(FMTS).flatmap(body)
 
@@ -130,6 +194,7 @@ def _chunks_call(case, xs, pad):
          "deque": deque,        # a registered Sequence that refuses slices
          "intseq": IntSeq, "getitem": GetItemOnly,
          "array": lambda v: _array.array(case["dfmt"], v),   # already packed input of the same type code
+         "asis": lambda v: v,       # a ready-made lazy input (the clauses on several generators at once)
          "gen": lambda v: (x for x in v)}[case["src"]](xs)
   kwargs = {}
   if pad != "default":
@@ -144,21 +209,41 @@ def _chunks_call(case, xs, pad):
   return f(src, case["size"], case["dfmt"], case["order"], **kwargs)
 
 
+def _set_default_size(value, via):
+  """chunks.size = value (on the strategy dict itself or on its class); returns the undo function."""
+  cls = type(chunks)
+  had_inst = "size" in vars(chunks)
+  old_inst = vars(chunks).get("size")
+  old_cls = cls.size
+  if via == "class":
+    vars(chunks).pop("size", None)     # an instance attribute would hide the class one
+    cls.size = value
+  else:
+    chunks.size = value
+  if chunks.size != value:
+    raise RuntimeError("harness: chunks.size could not be set")
+
+  def undo():
+    cls.size = old_cls
+    vars(chunks).pop("size", None)
+    if had_inst:
+      vars(chunks)["size"] = old_inst
+  return undo
+
+
 def run_chunks(case):
   dfmt, order = case["dfmt"], case["order"]
-  size = case["size"] if case["size"] is not None else chunks.size
+  defsize = case.get("defsize") if case["size"] is None else None
+  size = case["size"] if case["size"] is not None else defsize or chunks.size
   if not (isinstance(size, int) and size >= 1):
     raise Violation("chunks.size is %r" % (size,))
-  nblocks = case["blocks"] if case["size"] is not None else min(case["blocks"], 1)
+  nblocks = case["blocks"] if case["size"] is not None or defsize else min(case["blocks"], 1)
   tail = case["extra"] % size
   pad = case["pad"]
-  if pad == "default" and dfmt in INT_RANGE:
-    tail = 0            # 0. is not packable as an integer: no ragged tail in this case
-    nblocks = max(nblocks, 1)
   base = case["base"]
   length = nblocks * size + tail
   xs = [base[i % len(base)] for i in range(length)]
-  padv = 0. if pad == "default" else pad
+  padv = 0 if pad == "default" else pad     # the default pad is the integer 0: packable in every format
   n = -(-length // size) * size
   padded = xs + [padv] * (n - length)
   fmt = (order or "") + "%d%s" % (n, dfmt)
@@ -169,6 +254,10 @@ def run_chunks(case):
   what = "%s(len %d, size=%r, dfmt=%r, byte_order=%r, padval=%r)" % (
     site, length, case["size"], dfmt, order, pad)
   got = []
+  restore = None
+  if defsize:
+    what += " with chunks.size = %d set before (%s attribute)" % (defsize, case.get("defvia", "instance"))
+    restore = _set_default_size(defsize, case.get("defvia", "instance"))
   try:
     for c in _chunks_call(case, xs, pad):
       got.append(c)
@@ -177,6 +266,9 @@ def run_chunks(case):
   except Exception as e:
     raise Violation("%s raised %s: %s after %d chunk(s); xs[:6]=%r"
                     % (what, type(e).__name__, e, len(got), xs[:6]), site=site)
+  finally:
+    if restore:
+      restore()
   for k, c in enumerate(got):
     if not isinstance(c, bytes):
       raise Violation("%s chunk %d is %s, not bytes" % (what, k, type(c).__name__), site=site)
@@ -194,7 +286,7 @@ def run_chunks(case):
                     % (what, fmt, k, el, padded[el], joined[el * item:(el + 1) * item].hex(),
                        exp[el * item:(el + 1) * item].hex()), site=site)
   back = struct.unpack(fmt, joined)
-  if list(back) != padded:
+  if not _same_items(list(back), padded):
     raise Violation("%s: unpacking gives %r..., expected %r..." % (what, back[:6], padded[:6]),
                     site=site)
 
@@ -210,12 +302,23 @@ def run_chunks(case):
     labels.append("size>128")
   if case["size"] is None:
     labels.append("default size")
+    if defsize:
+      labels.append("default size changed through chunks.size")
   if pad == "default":
     labels.append("default pad")
+    if n > length and dfmt in INT_RANGE:
+      labels.append("default pad filling the tail of an integer format")
   if n // size >= 2:
     labels.append("multi-chunk")
   if order in (">", "!") and item > 1:
     labels.append("non-native multi-byte")
+  if any(_nonfinite(v) for v in padded):
+    labels.append("non-finite value (inf / nan) among data or pad")
+  if dfmt in "fd" and any(
+      padded[k:k + size] == padded[k + size:k + 2 * size] and
+      exp[k * item:(k + size) * item] != exp[(k + size) * item:(k + 2 * size) * item]
+      for k in range(0, n - size, size)):
+    labels.append("consecutive chunks equal by value, different in bytes (signed zeros)")
   return {"nontrivial": n // size >= 2, "labels": labels}
 
 
@@ -238,6 +341,54 @@ def chunk_grid(tier, shard, nshards):
             if i % nshards == shard:
               yield dict(strategy=strategy, dfmt=dfmt, order=order, size=size, base=base,
                          blocks=blocks, extra=extra, pad=base[1], src="iter", kw=bool(i % 2))
+  # the non-finite values the float formats store (inf, -inf, NaNs of both signs) as data and as pad
+  for strategy in ("struct", "array", "default"):
+    for dfmt in ("f", "d"):
+      base = [_INF, 1.5, -_INF, _NAN, -0., -_NAN, _NAN_PAYLOAD]
+      for order in ORDERS:
+        for size in (1, 2, 3, 8, 129):
+          for blocks, extra in ((2, 0), (1, 1), (0, size - 1)):
+            i += 1
+            if i % nshards == shard:
+              yield dict(strategy=strategy, dfmt=dfmt, order=order, size=size, base=base,
+                         blocks=blocks, extra=extra, pad=(_INF, _NAN, -_INF, 0.25)[i % 4],
+                         src=("iter", "list", "gen")[i % 3], kw=bool(i % 2))
+  # zeros of both signs: consecutive chunks (and data vs pad) that compare equal but differ in bytes
+  for strategy in ("struct", "array", "default"):
+    for dfmt in ("f", "d"):
+      for order in (None, ">"):
+        for size in (1, 2, 3, 8):
+          for base in ([0., -0.], [-0., 0., 0.], [0., 0., -0., 0., -0.], [0, -0., 0.]):
+            for blocks, extra, pad in ((3, 0, 0.), (2, 1, -0.), (2, 1, 0.), (1, size - 1, -0.)):
+              i += 1
+              if i % nshards == shard:
+                yield dict(strategy=strategy, dfmt=dfmt, order=order, size=size, base=base,
+                           blocks=blocks, extra=extra, pad=pad, src=("iter", "list")[i % 2],
+                           kw=bool(i % 2))
+  # pad value left out (the default pads every format with zeros), ragged tails
+  for strategy in ("struct", "array", "default"):
+    for dfmt in FMTS:
+      base = [1, 0, 2, 3, 5] if dfmt in INT_RANGE else [1.5, -0.25, 3., -0., 7.]
+      for order in (None, "<", ">"):
+        for size in (2, 3, 129):
+          for blocks, extra in ((1, 1), (0, size - 1), (2, size // 2)):
+            i += 1
+            if i % nshards == shard:
+              yield dict(strategy=strategy, dfmt=dfmt, order=order, size=size, base=base,
+                         blocks=blocks, extra=extra, pad="default", src=("iter", "list")[i % 2],
+                         kw=bool(i % 2))
+  # size left out after chunks.size was changed (on the strategy dict or on its class)
+  for strategy in ("struct", "array", "default"):
+    for dfmt in FMTS:
+      base = [1, 0, 2, 3, 5] if dfmt in INT_RANGE else [1.5, -0.25, 3., -0., 7.]
+      for defsize in (1, 2, 3, 129, 2047):
+        for via in ("instance", "class"):
+          for blocks, extra in ((2, 0), (1, 1), (0, defsize - 1)):
+            i += 1
+            if i % nshards == shard:
+              yield dict(strategy=strategy, dfmt=dfmt, order=(None, "<", ">")[i % 3], size=None,
+                         base=base, blocks=blocks, extra=extra, pad=base[1], src=("iter", "list")[i % 2],
+                         kw=bool(i % 2), defsize=defsize, defvia=via)
   # sources that are Sequences without slice support (deque, integer-index-only user Sequence) or
   # iterable through __getitem__ alone: every strategy x format, shorter / equal / longer than a chunk
   for strategy in ("struct", "array", "default"):
@@ -257,10 +408,265 @@ def chunk_grid(tier, shard, nshards):
                            blocks=blocks, extra=extra, pad=base[0], src=src, kw=bool(i % 2))
 
 
+# ------------------------------------------- several chunk generators at once
+
+# Every call of chunks makes its own generator.  The statement holds for each of them whatever else
+# goes on in the process: other generators of either strategy alive at the same time and advanced in
+# any order, or started / advanced from *inside* the lazily evaluated input of this one (a sequence
+# computed from the chunks of another stage, a generator that has something else chunked as a side
+# job) - also with the same format and size, and while a chunk of this one is partly filled.
+MODES = ["alternate", "sidejob", "step", "pipeline"]
+PAIRS = [("array", "array")] * 3 + [("struct", "struct"), ("array", "struct"), ("struct", "array"),
+                                     ("default", "array"), ("default", "default")]
+
+
+def strat_nested(tier):
+  small = st.one_of(st.integers(1, 6), st.integers(1, 6), st.integers(1, 40))
+
+  def spec(dfmt, size, strategy):
+    return st.fixed_dictionaries(dict(
+      strategy=st.just(strategy), dfmt=st.just(dfmt), size=st.just(size),
+      order=st.sampled_from([None, "<", ">", None, "<", ">", "=", "!", "@"]),
+      base=st.lists(_values(dfmt), min_size=1, max_size=6),
+      blocks=st.integers(0, 3), extra=st.integers(0, 40),
+      pad=_values(dfmt),
+      src=st.sampled_from(["list", "iter", "gen", "stream", "deque", "tuple"]),
+      kw=st.booleans()))
+
+  def body(t):
+    dfmt, dfmt_b, size, size_b, pair, mode = t
+    if mode == "pipeline":
+      dfmt_b = dfmt           # the second stage re-chunks what the first one delivered
+    return st.fixed_dictionaries(dict(
+      mode=st.just(mode),
+      a=spec(dfmt, size, pair[0]),
+      b=spec(dfmt_b, size_b, pair[1]),
+      sched=st.lists(st.integers(0, 1), max_size=10),     # alternate: which generator moves next
+      hooks=st.lists(st.integers(0, 60), min_size=1, max_size=4),   # nested: before which items of a
+      lead=st.integers(0, 7),                             # pipeline: items of a ahead of stage b
+      b_first=st.booleans()))
+
+  def pick(t):
+    dfmt, size = t[0], t[1]
+    # the other generator: same format and same size in about half of the cases
+    return st.tuples(st.just(dfmt),
+                     st.sampled_from([dfmt, dfmt, dfmt, None]).flatmap(
+                       lambda d: st.just(d) if d else st.sampled_from(FMTS)),
+                     st.just(size),
+                     st.sampled_from([size, size, None]).flatmap(
+                       lambda z: st.just(z) if z else small),
+                     st.sampled_from(PAIRS), st.sampled_from(MODES)).flatmap(body)
+  return st.tuples(st.sampled_from(FMTS), small).flatmap(pick)
+
+
+def _plan(spec, xs=None):
+  """What one chunks call has to deliver (oracle: one-shot struct.pack of sequence + pads)."""
+  size, dfmt, order = spec["size"], spec["dfmt"], spec["order"]
+  if xs is None:
+    base = spec["base"]
+    length = spec["blocks"] * size + spec["extra"] % size
+    xs = [base[i % len(base)] for i in range(length)]
+  n = -(-len(xs) // size) * size
+  padded = list(xs) + [spec["pad"]] * (n - len(xs))
+  fmt = (order or "") + "%d%s" % (n, dfmt)
+  site = "chunks." + ("struct" if spec["strategy"] == "default" else spec["strategy"])
+  return dict(spec=spec, xs=list(xs), n=n, size=size, padded=padded, fmt=fmt,
+              exp=struct.pack(fmt, *padded), item=struct.calcsize((order or "") + dfmt),
+              site=site, got=[],
+              what="%s(len %d, size=%d, dfmt=%r, byte_order=%r, padval=%r)"
+                   % (site, len(xs), size, dfmt, order, spec["pad"]))
+
+
+def _start(plan, seq=None):
+  spec = plan["spec"]
+  if seq is None:
+    case = dict(spec)
+  else:                     # a ready-made (lazy) input
+    case = dict(spec, src="asis")
+  return _chunks_call(case, plan["xs"] if seq is None else seq, spec["pad"])
+
+
+def _advance(plan, gen, how, count=None):
+  """Take `count` chunks (None: all that remain) from a generator; True once it has ended."""
+  k = 0
+  while count is None or k < count:
+    try:
+      c = next(gen)
+    except StopIteration:
+      return True
+    except Exception as e:
+      raise Violation("%s %s: raised %s: %s after %d chunk(s)"
+                      % (plan["what"], how, type(e).__name__, e, len(plan["got"])),
+                      site=plan["site"])
+    plan["got"].append(c)
+    k += 1
+    if len(plan["got"]) > plan["n"] // plan["size"] + 2:
+      raise Violation("%s %s: more than the %d expected chunks"
+                      % (plan["what"], how, plan["n"] // plan["size"]), site=plan["site"])
+  return False
+
+
+def _verify(plan, how):
+  what, site, size, item = plan["what"] + " " + how, plan["site"], plan["size"], plan["item"]
+  got, exp, padded = plan["got"], plan["exp"], plan["padded"]
+  for k, c in enumerate(got):
+    if not isinstance(c, bytes):
+      raise Violation("%s: chunk %d is %s, not bytes" % (what, k, type(c).__name__), site=site)
+    if len(c) != size * item:
+      raise Violation("%s: chunk %d has %d bytes, expected %d*%d" % (what, k, len(c), size, item),
+                      site=site)
+  if len(got) != plan["n"] // size:
+    raise Violation("%s: yielded %d chunks, expected %d" % (what, len(got), plan["n"] // size),
+                    site=site)
+  joined = b"".join(got)
+  if joined != exp:
+    k = next(i for i in range(len(exp)) if joined[i] != exp[i])
+    el = k // item
+    raise Violation("%s: bytes differ from struct.pack(%r, ...) at byte %d (element %d of %d, value "
+                    "%r): got %s, expected %s; sequence + pad = %r"
+                    % (what, plan["fmt"], k, el, len(padded), padded[el],
+                       joined[el * item:(el + 1) * item].hex(), exp[el * item:(el + 1) * item].hex(),
+                       padded[:12]), site=site)
+  if not _same_items(list(struct.unpack(plan["fmt"], joined)), padded):
+    raise Violation("%s: unpacking does not give the sequence + pads %r" % (what, padded[:12]),
+                    site=site)
+
+
+def run_nested(case):
+  mode = case["mode"]
+  a_spec, b_spec = case["a"], case["b"]
+  pb = _plan(b_spec)
+  labels = ["mode:" + mode, "pair:%s+%s" % (a_spec["strategy"], b_spec["strategy"])]
+  partly = False          # did the other generator move while a chunk of `a` was partly filled?
+  if mode == "alternate":
+    pa = _plan(a_spec)
+    plans = [pa, pb]
+    gens = [_start(pa), _start(pb)]
+    how = "advanced in turns with " + pb["what"]
+    done = [False, False]
+    for k in case["sched"]:
+      if not done[k]:
+        done[k] = _advance(plans[k], gens[k], how, 1)
+    for k in ((1, 0) if case["b_first"] else (0, 1)):
+      if not done[k]:
+        _advance(plans[k], gens[k], how)
+    if len(set(case["sched"])) == 2:
+      labels.append("both generators moved before either ended")
+  elif mode in ("sidejob", "step"):
+    pa = _plan(a_spec)
+    hooks = set(h % (len(pa["xs"]) + 1) for h in case["hooks"])
+    how = "whose input, between two of its items, %s %s" % (
+      "runs" if mode == "sidejob" else "takes the next chunk of", pb["what"])
+    state = {"gen": None, "done": False, "fired": []}
+
+    def fire(i):
+      state["fired"].append(i)
+      if mode == "sidejob":           # a complete call of its own, verified on the spot
+        job = _plan(b_spec)
+        _advance(job, _start(job), "run inside the input of " + pa["what"])
+        _verify(job, "run inside the input of " + pa["what"])
+      else:
+        if state["gen"] is None:
+          state["gen"] = _start(pb)
+        if not state["done"]:
+          state["done"] = _advance(pb, state["gen"], "advanced inside the input of " + pa["what"], 1)
+
+    def seq():
+      for i, x in enumerate(pa["xs"]):
+        if i in hooks:
+          fire(i)
+        yield x
+      if len(pa["xs"]) in hooks:
+        fire(len(pa["xs"]))
+
+    _advance(pa, _start(pa, seq()), how)
+    if mode == "step":
+      if state["gen"] is None:
+        state["gen"] = _start(pb)
+      if not state["done"]:
+        _advance(pb, state["gen"], "finished after " + pa["what"])
+    else:
+      _advance(pb, _start(pb), "after " + pa["what"])
+    partly = any(i % pa["size"] for i in state["fired"])
+  elif mode == "pipeline":
+    # stage b chunks its data; stage a chunks `lead` items of its own followed by everything that
+    # stage b delivered, decoded again (lazily: stage b runs inside the input of stage a)
+    lead = [a_spec["base"][i % len(a_spec["base"])] for i in range(case["lead"])]
+    pa = _plan(a_spec, lead + pb["padded"])
+    how = "fed with %d item(s) and then the decoded chunks of %s" % (len(lead), pb["what"])
+    one = (b_spec["order"] or "") + "%d%s" % (pb["size"], b_spec["dfmt"])
+    gb = _start(pb)
+
+    def seq():
+      for x in lead:
+        yield x
+      while True:
+        before = len(pb["got"])
+        if _advance(pb, gb, "read as the first stage of " + pa["what"], 1):
+          return
+        for x in struct.unpack(one, pb["got"][before]):
+          yield x
+
+    _advance(pa, _start(pa, seq()), how)
+    partly = any((len(lead) + k * pb["size"]) % pa["size"] for k in range(pb["n"] // pb["size"]))
+  else:
+    raise ValueError(mode)
+  _verify(pa, how)
+  _verify(pb, "(the other generator) while " + pa["what"] + " was " + how)
+
+  eff = lambda name: "struct" if name == "default" else name
+  same = a_spec["dfmt"] == b_spec["dfmt"] and a_spec["size"] == b_spec["size"]
+  twins = same and eff(a_spec["strategy"]) == eff(b_spec["strategy"])
+  if a_spec["dfmt"] == b_spec["dfmt"]:
+    labels.append("same format")
+  if same:
+    labels.append("same format and size")
+  if twins:
+    labels.append("same strategy, format and size")
+  if partly:
+    labels.append("other generator moved while a chunk was partly filled")
+    if twins:
+      labels.append("same strategy, format and size, other moved while a chunk was partly filled")
+      if eff(a_spec["strategy"]) == "array":
+        labels.append("array twins, other moved while a chunk was partly filled")
+  if any(_nonfinite(v) for v in pa["padded"] + pb["padded"]):
+    labels.append("non-finite value (inf / nan) among data or pad")
+  return {"nontrivial": pa["n"] // pa["size"] >= 2 and pb["n"] > 0, "labels": labels}
+
+
+def nested_grid(tier, shard, nshards):
+  """strategy pair x format x mode with the same format and size on both generators."""
+  i = 0
+  for pair in sorted(set(PAIRS)):
+    for dfmt in FMTS:
+      if dfmt in INT_RANGE:
+        lo, hi = INT_RANGE[dfmt]
+        base_a, base_b = [hi, lo, 1, 0, hi - 1], [lo + 1, 2, hi, 3, lo]
+      else:
+        base_a, base_b = [1.5, -0.25, 3., -0., 0.0009765625], [-2.5, 7., _INF, 0.5, -1.]
+      for size in (1, 2, 3, 5):
+        for mode in MODES:
+          for order in (None, ">"):
+            for blocks, extra, lead in ((2, 1, 1), (1, size - 1, size + 1), (3, 0, 2)):
+              i += 1
+              if i % nshards == shard:
+                yield dict(
+                  mode=mode, lead=lead, b_first=bool(i % 2), sched=[0, 1, 1, 0, 1, 0][:2 + i % 5],
+                  hooks=[1, size + 1, 2 * size + 2][:1 + i % 3],
+                  a=dict(strategy=pair[0], dfmt=dfmt, size=size, order=order, base=base_a,
+                         blocks=blocks, extra=extra, pad=base_a[1], src="gen", kw=bool(i % 2)),
+                  b=dict(strategy=pair[1], dfmt=dfmt, size=size, order=(order, "<")[i % 2],
+                         base=base_b, blocks=3 - blocks % 3, extra=extra + 1, pad=base_b[0],
+                         src=("list", "iter", "deque")[i % 3], kw=bool(i % 3)))
+
+
 # --------------------------------------------------------------------- WAV
 
 def _lohi(width):
   return (0, 255) if width == 1 else (-(1 << (8 * width - 1)), (1 << (8 * width - 1)) - 1)
+
+
+KEEPS = [False, True, False, True, False, True, 1, 0, 2, None]
 
 
 def strat_wav(tier):
@@ -277,13 +683,14 @@ def strat_wav(tier):
       width=st.just(width),
       ch=st.sampled_from([1, 2]),
       vals=st.lists(val, max_size=2 * maxfr),
-      keep=st.booleans(),
+      keep=st.sampled_from(KEEPS),     # a flag: any true / false value
       rate=st.sampled_from(RATE_KINDS).flatmap(RATES.__getitem__),
       how=st.sampled_from(HOWS),
       pre=st.binary(min_size=1, max_size=48),   # foreign bytes around the WAV (placements with pre/tail)
       decoy=st.sampled_from(DECOYS),            # the other WAV stored in the same container
       dn=st.integers(0, 12),
       consume=st.sampled_from(["list", "list", "next", "take"]),
+      layout=st.one_of(st.none(), st.none(), st.none(), LAYOUTS, LAYOUTS),
     )).map(_split_how)
   return st.sampled_from([1, 2, 3, 4]).flatmap(body)
 
@@ -311,6 +718,63 @@ def _writable(rate, ch, width):
   return rate >= 1 and rate * ch * width < 2 ** 32
 
 
+# How the PCM file is laid out.  The wave module writes the canonical 44-byte header followed by the
+# data chunk and nothing else.  RIFF/WAVE files in the wild carry further chunks before the fmt chunk,
+# between fmt and data and after the data (LIST/INFO, fact, cue, bext, JUNK, id3 ...), an fmt chunk of
+# 18 bytes (cbSize = 0) or the 40-byte WAVE_FORMAT_EXTENSIBLE one with the PCM sub-format, and a pad
+# byte after a data chunk of odd length.  They store the same samples; a layout is
+# (fmt kind, chunks before fmt, chunks between fmt and data, chunks after data, pad an odd last chunk).
+FMT_KINDS = ["16", "18", "ext"]
+CHUNK_IDS = [b"LIST", b"fact", b"JUNK", b"bext", b"id3 ", b"cue ", b"DATA", b"Fmt ", b"PAD ", b"smpl"]
+_payload = st.one_of(st.binary(max_size=24),
+                     st.sampled_from([b"", b"\x00", b"INFOISFT\x05\x00\x00\x00c18\x00\x00", b"data\x04\x00\x00\x00\x01\x02\x03\x04",
+                                      b"\x7f" * 13, b"RIFF\x04\x00\x00\x00WAVE", bytes(range(1, 40)),
+                                      b"\xff\x7f\x00\x80" * 6]))
+_extra = st.lists(st.tuples(st.sampled_from(CHUNK_IDS), _payload), max_size=2)
+LAYOUTS = st.fixed_dictionaries(dict(
+  fmt=st.sampled_from(FMT_KINDS), pre=_extra, mid=_extra,
+  post=st.one_of(_extra, st.lists(st.tuples(st.sampled_from(CHUNK_IDS), _payload), min_size=1,
+                                  max_size=2)),
+  padlast=st.booleans()))
+_SUBTYPE_PCM = b"\x01\x00\x00\x00\x00\x00\x10\x00\x80\x00\x00\xaa\x00\x38\x9b\x71"
+
+
+def _riff_chunk(cid, payload, pad=True):
+  return bytes(cid) + struct.pack("<I", len(payload)) + bytes(payload) + \
+         (b"\x00" if pad and len(payload) % 2 else b"")
+
+
+def _laid_out(width, ch, rate, vals, layout):
+  """Bytes of a RIFF/WAVE PCM file with the given chunk layout, put together by hand."""
+  head = struct.pack("<HIIHH", ch, rate, (rate * ch * width) & 0xffffffff, ch * width, 8 * width)
+  if layout["fmt"] == "16":
+    fmt = struct.pack("<H", 1) + head
+  elif layout["fmt"] == "18":
+    fmt = struct.pack("<H", 1) + head + struct.pack("<H", 0)
+  else:
+    fmt = struct.pack("<H", 0xfffe) + head + \
+          struct.pack("<HHI", 22, 8 * width, 3 if ch == 2 else 4) + _SUBTYPE_PCM
+  raw = _raw(vals, width)
+  post = [tuple(c) for c in layout["post"]]
+  body = b"WAVE" + b"".join(_riff_chunk(*c) for c in layout["pre"]) + _riff_chunk(b"fmt ", fmt) + \
+         b"".join(_riff_chunk(*c) for c in layout["mid"]) + \
+         _riff_chunk(b"data", raw, pad=bool(post) or layout["padlast"]) + \
+         b"".join(_riff_chunk(c[0], c[1], pad=k < len(post) - 1 or layout["padlast"])
+                  for k, c in enumerate(post))
+  blob = b"RIFF" + struct.pack("<I", len(body)) + body
+  # the layout must be one the standard reader decodes to the very same frames (harness self-check)
+  try:
+    r = wave.open(io.BytesIO(blob), "rb")
+    seen = (r.getnchannels(), r.getsampwidth(), r.getframerate(), r.getnframes(),
+            r.readframes(r.getnframes() + 1))
+  except Exception as e:
+    raise RuntimeError("harness: hand-made WAV layout %r is not readable: %s: %s"
+                       % (layout, type(e).__name__, e))
+  if seen != (ch, width, rate, len(vals) // ch, raw):
+    raise RuntimeError("harness: hand-made WAV layout %r reads back as %r" % (layout, seen[:4]))
+  return blob
+
+
 # (open route, placement of the wanted WAV inside the opened object).  A name can only denote a file
 # whose RIFF data starts at offset 0; an open file object / BytesIO is decoded from where it stands.
 PLACES = ["start", "preamble", "after_wav", "between", "pre_tail", "tail"]
@@ -325,9 +789,9 @@ def _split_how(d):
   return d
 
 
-def _wav_bytes(width, ch, rate, vals):
+def _wav_bytes(width, ch, rate, vals, layout=None):
   buf = io.BytesIO()
-  _write(buf, dict(width=width, ch=ch, rate=rate), vals)
+  _write(buf, dict(width=width, ch=ch, rate=rate, layout=layout), vals)
   return buf.getvalue()
 
 
@@ -349,7 +813,7 @@ def _decoy(case, vals, kind):
 def _container(case, vals):
   """(bytes of the container, offset of the wanted WAV's RIFF header in it)."""
   place = case.get("place", "start")
-  blob = _wav_bytes(case["width"], case["ch"], case["rate"], vals)
+  blob = _wav_bytes(case["width"], case["ch"], case["rate"], vals, case.get("layout"))
   pre = case.get("pre", b"\x00junk")
   kind = case.get("decoy", "other")
   if place == "start":
@@ -377,6 +841,14 @@ def _raw(vals, width):
 
 def _write(target, case, vals):
   rate, ch, width = case["rate"], case["ch"], case["width"]
+  if case.get("layout"):
+    blob = _laid_out(width, ch, rate, vals, case["layout"])
+    if hasattr(target, "write"):
+      target.write(blob)
+    else:
+      with open(target, "wb") as f:
+        f.write(blob)
+    return
   if not _writable(rate, ch, width):
     # the writer refuses this header: write it with rate 1, then set the 4-byte rate field and
     # the byte-rate field that depends on it (modulo 2**32; the reader ignores it) by hand
@@ -434,6 +906,8 @@ def run_wav(case):
     raise Reject("a file name denotes a WAV that starts at offset 0")
   what = "WavStream(%d-bit, %d ch, %d frames, keep=%r, %s%s)" % (
     bits, ch, nfr, keep, case["route"], "" if place == "start" else " placed " + place)
+  if case.get("layout"):
+    what += " [file laid out by hand: %r]" % (case["layout"],)
   tmp = tempfile.mkdtemp(prefix="c18-case-")
   mine = None
   offset = 0
@@ -491,6 +965,10 @@ def run_wav(case):
                         % (what, i, vals[i], _raw([vals[i]], width).hex(), g, e))
       if not keep and not (-1 <= g < 1):
         raise Violation("%s sample %d = %r outside [-1, 1)" % (what, i, g))
+    hdr = (ws.rate, ws.channels, ws.bits)
+    if hdr != (case["rate"], ch, bits):
+      raise Violation("%s: after exhaustion (rate, channels, bits) = %r, header says %r"
+                      % (what, hdr, (case["rate"], ch, bits)))
     # closed after exhaustion
     if case["route"] == "path":
       fds = _open_fds(path)
@@ -507,6 +985,8 @@ def run_wav(case):
   lo, hi = _lohi(width)
   labels = ["width:%d" % bits, "stereo" if ch == 2 else "mono", "keep" if keep else "scaled",
             "route:" + case["route"], "consume:" + case["consume"]]
+  if not isinstance(keep, bool):
+    labels.append("keep flag not a bool")
   if neg:
     labels.append("negative sample")
   if lo in vals or hi in vals:
@@ -520,6 +1000,16 @@ def run_wav(case):
     labels.append("rate>=2**31")
   if not _writable(case["rate"], ch, width):
     labels.append("rate beyond the wave writer (header patched)")
+  lay = case.get("layout")
+  if lay:
+    labels.append("layout:by hand")
+    labels.append("layout:fmt chunk " + lay["fmt"])
+    if lay["post"]:
+      labels.append("layout:further chunks after the data")
+    if lay["pre"] or lay["mid"]:
+      labels.append("layout:further chunks before the data")
+    if (len(vals) * width) % 2 and (lay["post"] or lay["padlast"]):
+      labels.append("layout:odd data length with pad byte")
   if offset > 0:
     labels.append("RIFF header at offset>0")
     if place in ("after_wav", "between"):
@@ -603,6 +1093,44 @@ def wav_grid(tier, shard, nshards):
               yield dict(width=width, ch=ch, vals=probes[:len(probes) - 2 * (k % 3 == 0)], keep=keep,
                          rate=rate, route=route, place=place, pre=pres[k % len(pres)],
                          decoy=DECOYS[k % 3], dn=k % 5, consume=("list", "next", "take")[k % 3])
+  # files laid out by hand: fmt chunk of 16 / 18 / 40 (extensible) bytes, further chunks before fmt,
+  # between fmt and data and after the data, odd data lengths with and without the pad byte
+  info = (b"LIST", b"INFOISFT\x0e\x00\x00\x00c18 layout test")
+  odd = (b"JUNK", b"\x01\x02\x03")
+  lays = [dict(fmt="16", pre=[], mid=[], post=[info], padlast=False),
+          dict(fmt="16", pre=[], mid=[], post=[odd, (b"id3 ", b"\xff\x7f\x00\x80" * 5)], padlast=True),
+          dict(fmt="18", pre=[], mid=[(b"fact", b"\x0b\x00\x00\x00")], post=[], padlast=True),
+          dict(fmt="ext", pre=[], mid=[], post=[], padlast=False),
+          dict(fmt="ext", pre=[odd], mid=[info], post=[(b"cue ", b"\x00" * 4)], padlast=False),
+          dict(fmt="16", pre=[(b"JUNK", b"\x00" * 28)], mid=[odd], post=[], padlast=False),
+          dict(fmt="18", pre=[], mid=[], post=[(b"DATA", b"data\x02\x00\x00\x00\x01\x02")], padlast=False)]
+  m = 0
+  for width in (1, 2, 3, 4):
+    lo, hi = _lohi(width)
+    mid = 128 if width == 1 else 0
+    probes = [lo, hi, mid, mid - 1, mid + 1, lo + 1, hi - 1, lo, hi, mid - 1, mid + 2]
+    for ch in (1, 2):
+      for keep in (False, True):
+        for route in ("path", "fileobj", "bytesio"):
+          for lay in lays:
+            for nvals in (len(probes), len(probes) - 2 * ch, 0):
+              m += 1
+              if m % nshards == shard:
+                place = "start" if route == "path" or m % 2 else PLACES[m // 2 % len(PLACES)]
+                yield dict(width=width, ch=ch, vals=probes[:nvals], keep=keep, rate=16000 + m,
+                           route=route, place=place, pre=pres[m % len(pres)], decoy=DECOYS[m % 3],
+                           dn=m % 5, consume=("list", "next", "take")[m % 3], layout=lay)
+  # the keep flag given as something else than a bool
+  for width in (1, 2, 3, 4):
+    lo, hi = _lohi(width)
+    mid = 128 if width == 1 else 0
+    for ch in (1, 2):
+      for keep in (1, 0, 2, None):
+        for route in ("path", "fileobj", "bytesio"):
+          m += 1
+          if m % nshards == shard:
+            yield dict(width=width, ch=ch, vals=[lo, hi, mid, mid - 1, mid + 1, lo + 1], keep=keep,
+                       rate=32000 + m, route=route, consume=("list", "next", "take")[m % 3])
   if tier == "thorough" and shard == 0:
     # every 8-bit and every 16-bit value once
     yield dict(width=1, ch=1, vals=list(range(256)), keep=True, rate=8000, route="bytesio",
@@ -614,14 +1142,289 @@ def wav_grid(tier, shard, nshards):
                  route="bytesio", consume="list")
 
 
+# ---------------------------------------------------- several WavStreams at once
+
+# "WavStream over any ... PCM file yields exactly the stored integers" holds for every stream object,
+# whatever other WavStreams the process has made: left unfinished and forgotten, still alive and read
+# in turns with this one, over a file of another or the same layout, over the very same file, or over
+# a file that meanwhile replaced another one under the same name.
+def strat_wav_multi(tier):
+  maxv = 24 if tier == "quick" else 80
+
+  def stream(width, ch, k):
+    lo, hi = _lohi(width)
+    mid = 128 if width == 1 else 0
+    val = st.one_of(st.sampled_from([lo, hi, mid, mid - 1, mid + 1, lo + 1, hi - 1]),
+                    st.integers(lo, hi))
+    return st.fixed_dictionaries(dict(
+      width=st.just(width), ch=st.just(ch),
+      vals=st.lists(val, min_size=0 if k else 2 * ch, max_size=maxv),
+      keep=st.booleans(),
+      rate=st.sampled_from([8000, 44100, 48000, 1, 11025, 22050, 96000, 2 ** 31, 0, 12345]),
+      route=st.sampled_from(["path", "path", "fileobj", "bytesio"]),
+      via=st.sampled_from(["take", "next"]),
+      link=st.sampled_from(["none", "none", "none", "same", "replace"]) if k else st.just("none"),
+      to=st.integers(0, max(k - 1, 0))))
+
+  def streams(t):
+    width, ch, n = t
+    other = st.one_of(st.just((width, ch)), st.just((width, ch)),
+                      st.tuples(st.sampled_from([1, 2, 3, 4]), st.sampled_from([1, 2])))
+    return st.tuples(stream(width, ch, 0), *[other.flatmap(lambda wc, k=k: stream(wc[0], wc[1], k))
+                                             for k in range(1, n)]).map(list)
+
+  count = st.sampled_from([1, 1, 2, 3, 5, 0, -1, -1, 30])
+  return st.tuples(st.sampled_from([1, 2, 3, 4]), st.sampled_from([1, 2]),
+                   st.sampled_from([2, 2, 3])).flatmap(
+    lambda t: st.fixed_dictionaries(dict(
+      streams=streams(t),
+      ops=st.lists(st.tuples(st.integers(0, t[2] - 1), count), min_size=1, max_size=8),
+      drain=st.lists(st.booleans(), min_size=t[2], max_size=t[2]))))
+
+
+def _expected(content, keep):
+  width, ch, rate, vals = content
+  if keep:
+    return list(vals)
+  off = 128 if width == 1 else 0
+  return [(v - off) / float(1 << (8 * width - 1)) for v in vals]
+
+
+def run_wav_multi(case):
+  specs = case["streams"]
+  n = len(specs)
+  # the name each stream's file is stored under: its own, or the one of the stream it is linked to
+  owner = []
+  for k, sp in enumerate(specs):
+    owner.append(k if sp["link"] == "none" or k == 0 else owner[sp["to"] % k])
+  shared = set(o for o in owner if owner.count(o) > 1)
+
+  def own(k):
+    sp = specs[k]
+    vals = list(sp["vals"])
+    if len(vals) % sp["ch"]:
+      vals = vals[:-1]
+    return (sp["width"], sp["ch"], sp["rate"], vals)
+
+  tmp = tempfile.mkdtemp(prefix="c18-multi-")
+  disk = {}                  # name index -> content currently stored under that name
+  mine = []                  # file objects of the harness
+  ws = [None] * n
+  content = [None] * n
+  exp = [None] * n
+  got = [[] for _ in range(n)]
+  asked = [0] * n
+  state = ["unopened"] * n   # unopened / open / ended (StopIteration seen) / dropped
+  labels = set()
+  name = lambda k: os.path.join(tmp, "s%d.wav" % owner[k])
+  what = lambda k: "WavStream #%d of %d (%d-bit, %d ch, %d samples, keep=%r, %s%s)" % (
+    k, n, 8 * content[k][0], content[k][1], len(content[k][3]), specs[k]["keep"], specs[k]["route"],
+    "" if specs[k]["link"] == "none" or k == 0 else
+    ", %s #%d" % ({"same": "same file as", "replace": "its file replaces the one of"}[specs[k]["link"]],
+                  owner[k]))
+
+  def store(k, cont):
+    blob = _wav_bytes(*cont)
+    part = name(k) + ".part"
+    with open(part, "wb") as f:
+      f.write(blob)
+    os.replace(part, name(k))        # a new file under the name: open readers keep the old one
+    disk[owner[k]] = (cont, blob)
+
+  def others_partly_read(k):
+    return [j for j in range(n) if j != k and state[j] in ("open", "dropped") and
+            0 < len(got[j]) < len(exp[j])]
+
+  def open_stream(k):
+    sp = specs[k]
+    link = sp["link"] if k else "none"
+    if link == "same":
+      if owner[k] not in disk:
+        store(k, own(owner[k]))
+    else:
+      if link == "replace" and owner[k] in disk and disk[owner[k]][0] != own(k):
+        labels.add("a file replaced by another one under the same name")
+      store(k, own(k))
+    content[k], blob = disk[owner[k]]
+    exp[k] = _expected(content[k], sp["keep"])
+    keep = sp["keep"]
+    if sp["route"] == "bytesio":
+      f = io.BytesIO(blob)
+      mine.append(f)
+      ws[k] = _opened(what(k), lambda: WavStream(f, keep))
+    elif sp["route"] == "fileobj":
+      f = open(name(k), "rb")
+      mine.append(f)
+      ws[k] = _opened(what(k), lambda: WavStream(f, keep=keep))
+    else:
+      ws[k] = _opened(what(k), lambda: WavStream(name(k), keep) if keep else WavStream(name(k)))
+    state[k] = "open"
+    hdr = (ws[k].rate, ws[k].channels, ws[k].bits)
+    width, ch, rate, vals = content[k]
+    if hdr != (rate, ch, 8 * width):
+      raise Violation("%s: (rate, channels, bits) = %r, header says %r"
+                      % (what(k), hdr, (rate, ch, 8 * width)))
+    live = [j for j in range(n) if j != k and state[j] == "open" and len(got[j]) < len(exp[j])]
+    if live:
+      labels.add("opened while another stream had samples left")
+    if link == "same" and any(state[j] != "unopened" for j in range(n) if j != k and owner[j] == owner[k]):
+      labels.add("the same file opened again")
+
+  def read(k, count):
+    """count samples (None: all that remain)"""
+    if others_partly_read(k):
+      labels.add("read after / beside a partly read stream")
+      if any(content[j][:2] == content[k][:2] for j in others_partly_read(k)):
+        labels.add("read after / beside a partly read stream of the same frame layout")
+    before = len(got[k])
+    try:
+      if count is None:
+        got[k].extend(ws[k])
+        state[k] = "ended"
+      elif specs[k]["via"] == "take":
+        got[k].extend(ws[k].take(count))
+        if len(got[k]) - before < count:
+          state[k] = "ended"
+      else:
+        it = iter(ws[k])
+        for _ in range(count):
+          try:
+            got[k].append(next(it))
+          except StopIteration:
+            state[k] = "ended"
+            break
+    except Violation:
+      raise
+    except Exception as e:
+      raise Violation("%s: reading raised %s: %s after %d sample(s)"
+                      % (what(k), type(e).__name__, e, len(got[k])))
+    if count is not None:
+      asked[k] += count
+    check(k, final=False)
+
+  def check(k, final):
+    e, g = exp[k], got[k]
+    want = len(e) if state[k] == "ended" else min(len(e), asked[k])
+    if len(g) != want:
+      raise Violation("%s yielded %d samples so far, expected %d (asked for %d, %d stored%s)"
+                      % (what(k), len(g), want, asked[k], len(e),
+                         ", stream ended" if state[k] == "ended" else ""))
+    width = content[k][0]
+    for i, (x, y) in enumerate(zip(g, e)):
+      if isinstance(x, bool) or type(x) is not type(y) or x != y:
+        raise Violation("%s sample %d (stored %d = 0x%s) decodes to %r, expected %r; other streams: %s"
+                        % (what(k), i, content[k][3][i], _raw([content[k][3][i]], width).hex(), x, y,
+                           "; ".join("#%d %s, %d of %d samples read" % (j, state[j], len(got[j]),
+                                                                        len(exp[j]))
+                                     for j in range(n) if j != k and exp[j] is not None)))
+      if not specs[k]["keep"] and not (-1 <= x < 1):
+        raise Violation("%s sample %d = %r outside [-1, 1)" % (what(k), i, x))
+    if state[k] == "ended":
+      rd = getattr(ws[k], "_file", None)
+      if rd is not None and hasattr(rd, "getfp") and rd.getfp() is not None:
+        raise Violation("%s: wave reader not closed after exhaustion" % what(k))
+      if final and specs[k]["route"] == "path" and owner[k] not in shared:
+        fds = _open_fds(name(k))
+        if fds:
+          raise Violation("%s: file still open after exhaustion (fd %s)" % (what(k), ",".join(fds)))
+
+  try:
+    last = None
+    for k, count in case["ops"]:
+      k %= n
+      if state[k] == "dropped":
+        continue
+      if state[k] == "unopened":
+        open_stream(k)
+      if count < 0:
+        if 0 < len(got[k]) < len(exp[k]):
+          labels.add("a partly read stream forgotten")
+        ws[k] = None                # the caller forgets the stream
+        state[k] = "dropped"
+        continue
+      if state[k] == "ended":
+        continue
+      if last is not None and last != k and state[last] == "open" and 0 < len(got[last]) < len(exp[last]):
+        labels.add("reads switched between streams with samples left")
+      last = k
+      read(k, count)
+    for k in range(n):
+      if state[k] == "unopened":
+        open_stream(k)
+      if case["drain"][k] and state[k] == "open":
+        read(k, None)
+    for k in range(n):
+      if state[k] != "dropped":
+        check(k, final=True)
+  finally:
+    ws = None
+    for f in mine:
+      f.close()
+    shutil.rmtree(tmp, ignore_errors=True)
+
+  out = ["streams:%d" % n] + sorted(labels)
+  out += sorted(set("route:" + sp["route"] for sp in specs))
+  if len(set(c[:2] for c in content)) > 1:
+    out.append("streams of different frame layouts")
+  nt = len([k for k in range(n) if state[k] == "ended" and len(exp[k]) >= 3]) >= 1 and \
+       "read after / beside a partly read stream" in labels
+  return {"nontrivial": nt, "labels": out}
+
+
+def wav_multi_grid(tier, shard, nshards):
+  """Two streams: first left unfinished / both read in turns / same file twice / file replaced."""
+  i = 0
+  for width in (1, 2, 3, 4):
+    lo, hi = _lohi(width)
+    mid = 128 if width == 1 else 0
+    first = [mid - 1, lo, hi, mid, mid + 1, hi - 1, lo + 1, mid - 2, mid + 3, lo + 2, hi - 3, mid]
+    second = [hi, mid - 1, lo, mid + 2, lo + 5, hi - 7, mid - 3, mid + 1]
+    for ch in (1, 2):
+      for keep in (False, True):
+        for route in ("path", "fileobj", "bytesio"):
+          for other in ("alike", "wider"):
+            w2 = width if other == "alike" else width % 4 + 1
+            lo2, hi2 = _lohi(w2)
+            sec = second if other == "alike" else [lo2, hi2, lo2 + 1, hi2 - 1, (lo2 + hi2) // 2, lo2 + 9]
+            for scen in ("forgotten", "unfinished", "turns", "same", "replace"):
+              i += 1
+              if i % nshards != shard:
+                continue
+              a = dict(width=width, ch=ch, vals=first, keep=keep, rate=8000 + i, route=route,
+                       via=("take", "next")[i % 2], link="none", to=0)
+              b = dict(width=w2, ch=ch, vals=sec, keep=bool((i // 2) % 2) if scen == "same" else keep,
+                       rate=9000 + i, route=route, via=("next", "take")[i % 2], link="none", to=0)
+              if scen == "forgotten":
+                ops, drain = [(0, 1 + i % 3), (0, -1), (1, 2)], [False, True]
+              elif scen == "unfinished":
+                ops, drain = [(0, 2 * ch + i % 2), (1, 1)], [bool(i % 2), True]
+                if i % 2:
+                  ops.append((1, 30))
+              elif scen == "turns":
+                ops, drain = [(0, 1), (1, 1), (0, 2), (1, 3), (0, 1), (1, 1)], [True, True]
+              elif scen == "same":
+                b["link"] = "same"
+                ops, drain = [(0, 3), (1, 2), (0, 1)], [True, True]
+              else:
+                b["link"] = "replace"
+                ops = [(0, 30), (1, 2)] if i % 2 else [(0, 3), (1, 2), (0, 2)]
+                drain = [True, True]
+              yield dict(streams=[a, b], ops=ops, drain=drain)
+
+
 CLAUSES = [
   Clause("chunks", strat_chunks, run_chunks, quick=3000, thorough=50000, fuzz={"thorough": 60000},
          floors={"strategy:struct": .1, "strategy:array": .1, "strategy:default": .05,
                  "padded tail": .15, "multi-chunk": .1, "size>128": .03,
                  "non-native multi-byte": .05, "order:None": .08,
                  "src:deque": .04, "src:intseq": .04, "src:getitem": .02, "src:list": .02,
-                 "src:array": .04, "unsliceable Sequence holding a whole chunk": .06},
-         doc="joined chunks == one-shot struct.pack for both strategies, every byte order; "
+                 "src:array": .04, "unsliceable Sequence holding a whole chunk": .06,
+                 "non-finite value (inf / nan) among data or pad": .04,
+                 "default size changed through chunks.size": .03,
+                 "default pad filling the tail of an integer format": .04,
+                 "consecutive chunks equal by value, different in bytes (signed zeros)": .006},
+         doc="joined chunks == one-shot struct.pack for both strategies, every byte order, finite "
+             "and non-finite floats, explicit size or chunks.size (also changed beforehand); "
              "chunk length size*itemsize; unpack gives sequence + pads; inputs: list, tuple, "
              "iterator, generator, Stream, array.array, deque, integer-index-only Sequence, "
              "__getitem__-only object"),
@@ -629,7 +1432,22 @@ CLAUSES = [
              doc="strategy x format x byte order x sizes around 127/128/255/256 x "
                  "(2 full chunks, 1 full + 1 item, size-1 items); strategy x format x 3 byte "
                  "orders x 5 sizes x unsliceable Sequence / __getitem__-only inputs shorter, "
-                 "equal to and longer than a chunk"),
+                 "equal to and longer than a chunk; inf / nan data and pads x float formats x every "
+                 "byte order; size left out after chunks.size was set to 1 / 2 / 3 / 129 / 2047; pad value "
+                 "left out on ragged tails of every format"),
+  Clause("nested", strat_nested, run_nested, quick=1200, thorough=25000,
+         floors={"mode:alternate": .1, "mode:sidejob": .1, "mode:step": .1, "mode:pipeline": .1,
+                 "same format and size": .15, "same strategy, format and size": .08,
+                 "other generator moved while a chunk was partly filled": .1,
+                 "same strategy, format and size, other moved while a chunk was partly filled": .03},
+         doc="two chunk generators of either strategy alive at once (same format and size in half "
+             "of the cases): advanced in turns, or the second one run / advanced from inside the "
+             "lazily evaluated input of the first (side job, step by step, or as the first stage "
+             "whose decoded chunks the second re-chunks after some leading items); each one's joined "
+             "chunks == one-shot struct.pack of its own sequence + pads"),
+  Enumerated("nested_grid", nested_grid, run_nested, shards={"quick": 4, "thorough": 8},
+             doc="strategy pair x format x size 1/2/3/5 x the four ways of running two generators at "
+                 "once, same format and size on both"),
   Clause("wav", strat_wav, run_wav, quick=2500, thorough=40000, fuzz={"thorough": 60000},
          floors={"width:8": .08, "width:16": .08, "width:24": .08, "width:32": .08,
                  "stereo": .15, "keep": .15, "scaled": .15, "negative sample": .2,
@@ -638,16 +1456,42 @@ CLAUSES = [
                  "place:after_wav": .025, "place:between": .025, "place:pre_tail": .025,
                  "place:tail": .025, "decoy:other": .015, "decoy:longer": .015,
                  "decoy:flipped": .015, "rate:0": .05, "rate>=2**31": .04,
-                 "rate beyond the wave writer (header patched)": .1},
+                 "rate beyond the wave writer (header patched)": .1,
+                 "layout:by hand": .08, "layout:further chunks after the data": .04,
+                 "layout:further chunks before the data": .06, "layout:fmt chunk 18": .03,
+                 "layout:fmt chunk ext": .02, "layout:odd data length with pad byte": .006,
+                 "keep flag not a bool": .1},
          doc="WavStream on files written by the wave module, given by name, as an open file "
              "object or BytesIO standing at the RIFF header (alone, after foreign bytes, after / "
              "between other WAVs): keep/scaled values, types, [-1,1), header mirror for every "
              "32-bit rate field value (0 and rates the writer refuses by header patch), closed "
-             "after exhaustion"),
+             "after exhaustion; keep given as bool / 1 / 0 / 2 / None; files also laid out by hand "
+             "(fmt chunk 16 / 18 / extensible, further chunks before and after the data, pad bytes)"),
+  Clause("wav_multi", strat_wav_multi, run_wav_multi, quick=1000, thorough=20000,
+         floors={"streams:2": .2, "streams:3": .1,
+                 "read after / beside a partly read stream": .2,
+                 "read after / beside a partly read stream of the same frame layout": .1,
+                 "a partly read stream forgotten": .05,
+                 "reads switched between streams with samples left": .1,
+                 "opened while another stream had samples left": .2,
+                 "the same file opened again": .03,
+                 "a file replaced by another one under the same name": .03,
+                 "streams of different frame layouts": .08,
+                 "route:path": .3, "route:fileobj": .15, "route:bytesio": .15},
+         doc="two or three WavStreams in one process (same width and channels in most cases): read "
+             "in portions in any order, some forgotten or left unfinished, some over the very same "
+             "file or over a file that replaced another one under the same name; every stream "
+             "yields its own file's values (prefix for unfinished ones), mirrors its own header "
+             "and is closed once exhausted"),
+  Enumerated("wav_multi_grid", wav_multi_grid, run_wav_multi, shards={"quick": 4, "thorough": 8},
+             doc="width x channels x keep x route x (second file alike / of another width) x "
+                 "(first stream forgotten after a few samples, left unfinished, both read in "
+                 "turns, same file twice, file replaced under the same name)"),
   Enumerated("wav_grid", wav_grid, run_wav, shards={"quick": 8, "thorough": 16},
              doc="width x channels x keep x open route x consumption route on boundary "
                  "samples; x placement inside a container for file objects (preamble, after / "
                  "between other WAVs, trailing bytes; empty and long files too); x header rate "
-                 "0 / largest writable / first unwritable / 2**31 / 2**32-1 "
+                 "0 / largest writable / first unwritable / 2**31 / 2**32-1; x seven hand-made "
+                 "chunk layouts x three lengths; keep as 1 / 0 / 2 / None "
                  "(thorough: every 8- and 16-bit value)"),
 ]
